@@ -612,3 +612,15 @@ package ucfg
 //@ props C03
 //@ requires c != nil
 //@ ensures [val] err == nil ==> toStringOk(gotField(c, name, idx)) && result == toStringVal(gotField(c, name, idx))
+
+// ---------------------------------------------------------------- NewFrom as used by the flag loaders (C19)
+
+//@ ghost func builtFrom1(r *Config, k string, x interface{}, opts []Option) bool
+//@ pred single(m map[string]interface{}, k string, x interface{}) := has(m, k) && m[k] == x && forall k2 string :: has(m, k2) ==> k2 == k
+
+//@ func NewFrom :: from, opts -> r, err
+//@ trusted
+//@ pure
+//@ ensures err != nil ==> r == nil
+//@ ensures err == nil ==> r != nil && fresh(r)
+//@ ensures err == nil ==> forall k string :: forall x interface{} :: single(asmap(from), k, x) ==> builtFrom1(r, k, x, opts)
